@@ -67,6 +67,9 @@ func (w *vWorld) msg(kind int) *common.MessagePublication {
 		k.Payload = r.bytes(1 + r.below(40))
 	case 5: // extreme timestamp
 		k.Timestamp = time.Unix([]int64{0, -1, 1 << 32, 1<<32 + 5, 253402300799}[r.below(5)], 0)
+		if r.chance(1, 4) {
+			k.Timestamp = time.Time{} // the zero time (year 1): a watcher that could not read a block time
+		}
 		k.Payload = r.bytes(1 + r.below(40))
 	default:
 		k.Payload = r.bytes(1 + r.below(60))
